@@ -103,6 +103,10 @@ def run(res: C.Result, deep: bool):
                 k = l.split()[2]
                 ex.setdefault("leaf_kinds", {}).setdefault(k, 0)
                 ex["leaf_kinds"][k] += 1
+            elif l.startswith("FD "):
+                t = l.split(None, 3)
+                ex.setdefault("from_dict_probes", {}).setdefault(t[1], {"ok": 0, "err": 0})
+                ex["from_dict_probes"][t[1]]["err" if t[2].startswith("err") else "ok"] += 1
             elif l.startswith("VER "):
                 ex.setdefault("version_probes", {"refused": 0, "accepted": 0})
                 ex["version_probes"]["refused" if l.endswith(" 1") else "accepted"] += 1
